@@ -177,6 +177,9 @@ def run_c01(ctx):
 # ---- C02 -------------------------------------------------------------------------------------
 def _c02_oracle(tr, origin, meta):
     out = oracles.c02_values(tr, origin, meta['types'] if meta else None)
+    if meta and not out:
+        # the generated histories satisfy the premises throughout: every quiescent point must agree
+        out = oracles.c02_values_every_quiescent(tr, origin, meta['types'])
     if meta and oracles.ended_quiescent(tr):
         last = oracles.final_worlds(tr)
         for p in oracles.connected_peers(last):
@@ -392,7 +395,27 @@ def run_c08(ctx):
     cj, _ = _jobs_from(scen.crash_cross, 'C08x', ctx['seed'], n)
     jobs = pc.corpus_jobs(['S3_*.scn', 'S5_*.scn']) + cj + pc.generated_jobs('C08', ctx['seed'], n // 2, ['appcmd', 'mixed', 'skinned'])
     out = pc.run_scenarios('C08', ctx, jobs, [oracles.panics], nontrivial=pc.received_kinds)
-    return pc.make_result('C08', ctx, out, 'frames of histories mixing replication traffic with application despawns (between frames and through application systems placed by the scheduler), peers with different registrations, late joins; every update() is run under catch_unwind; non-trivial = distinct (scenario, receiver, kind, key) received')
+    # "... or published assets": what the real decoders do with a download cut off at an arbitrary point
+    # (an asset beyond the transfer limit), under catch_unwind, compared with the model's decoders
+    import re
+    from .. import codecrun
+    from . import c11, c13
+    k = 4 if ctx.get('tier') == 'quick' else 24
+    shards = [('codec-mesh', [ctx['seed'] * 100000 + 8000 + i, 25, 1500], 'c08m_%d_%d' % (ctx['seed'], i)) for i in range(k)] + \
+             [('codec-image', [ctx['seed'] * 100000 + 8500 + i, 25, 48], 'c08i_%d_%d' % (ctx['seed'], i)) for i in range(k)]
+    cut = 0
+    for (cmd, args, tag), r in zip(shards, codecrun.run_shards(shards, use_driver=ctx.get('driver_ok', True))):
+        origin = dict(cmd=cmd, seed=args[0], count=args[1], max=args[2], trace=r['path'])
+        if r['error']:
+            out['failures'].append(dict(signature='codec-harness-failed', origin=origin, what=r['error']))
+            continue
+        cut += len(re.findall(r'^(?:MESH|IMG)BADDEC ', r['text'], re.M))
+        orc = c11.oracle if cmd == 'codec-mesh' else c13.oracle
+        out['failures'] += [f for f in orc(r['text'], origin)[0] if 'truncated-download-panics' in f['signature']]
+        out['diffs'] += ['%s: %s' % (tag, d) for d in r['diffs'] if 'truncated download' in d]
+    out['opstats']['truncated_downloads_decoded'] = cut
+    out['evaluations'] = out.get('evaluations', 0) + cut
+    return pc.make_result('C08', ctx, out, 'frames of histories mixing replication traffic with application despawns (between frames and through application systems placed by the scheduler), peers with different registrations, late joins; every update() is run under catch_unwind; plus the real mesh / image decoders on downloads cut off at arbitrary points, under catch_unwind, against the model decoders; non-trivial = distinct (scenario, receiver, kind, key) received')
 
 
 # ---- C09 -------------------------------------------------------------------------------------
@@ -423,7 +446,14 @@ def run_c09(ctx):
 
 # ---- C10 -------------------------------------------------------------------------------------
 def _c10_oracle(tr, origin, meta):
-    return oracles.c10_subsequence(tr, origin, meta['key'], meta['writer']) if meta else []
+    if not meta:
+        return []
+    out = []
+    for key in meta.get('keys', [meta['key']]):
+        out += oracles.c10_subsequence(tr, origin, key, meta['writer'])
+        if out:
+            break
+    return out
 
 
 def run_c10(ctx):
@@ -431,6 +461,9 @@ def run_c10(ctx):
     jobs, metas = _jobs_from(scen.single_writer, 'C10', ctx['seed'], n)
     jj, mj = _jobs_from(scen.single_writer_join, 'C10j', ctx['seed'], max(10, n // 2))
     metas.update(mj)
+    jm, mm = _jobs_from(scen.single_writer_many, 'C10m', ctx['seed'], 2 if ctx.get('tier') == 'quick' else 8)
+    metas.update(mm)
+    jj = jj + jm
     jobs = pc.corpus_jobs(['S1_*.scn', 'S2_*.scn', 'S21_*.scn']) + jobs + jj
     metas['corpus_S21_join_during_inframe_write'] = dict(key=('1', 0), writer=0)
     metas['corpus_S1_second_update_skipped'] = dict(key=('1', 0), writer=0)
